@@ -8,12 +8,15 @@
   A panic is reported as panic:<first arrai frame>:<message>, a dead child as crash:<reason>, a case
   that exceeds the time limit twice as timeout.  The specification of every case is "!panic".
 
-  Streams (per 100 generated cases): 35 operators x operands of every kind (half of them through the
+  First the corpus, then two enumerated grids (Grid.lean: every stdlib function x parameter position x boundary argument,
+  every operator x empty/degenerate operand), then n sampled cases.
+  Streams (per 100 sampled cases): 35 operators x operands of every kind (half of them through the
   model of part (a), whose prediction value/error is the `model` column), 20 standard-library calls,
   30 valid programs and their mutations, 15 raw text / raw bytes.
 -/
 import Arrai.C10.Fuzz
 import Arrai.C10.ModelGen
+import Arrai.C10.Grid
 
 namespace Arrai.C10
 open Arrai
@@ -52,7 +55,9 @@ def corpus (thorough : Bool) : List Case :=
     kf 104 "KF-setpattern-panic" "let x = {(y: 0, z: 2), (y: 0, z: 3)}; cond x { {(:y, :z), ...}: 2 * y }",
     kf 105 "KF-function-as-set" "//rel.union(\\x x)", kf 106 "KF-function-as-set" "(\\x x) count",
     kf 107 "KF-function-as-set" "1 <: //seq.concat", kf 108 "KF-relation-bucket" "{('a, b': 1), (a: 1, b: 2)}",
-    kf 109 "KF-grammar-parse" "//grammar.parse(3)",
+    kf 109 "KF-grammar-parse" "//grammar.parse(3)", kf 112 "KF-huge-repeat" "//seq.repeat(9007199254740992, 'abc')",
+    good 51 "//seq.repeat(-1, [1, 2])", good 52 "{} rank (r: .x)", good 53 "({|x| (1), (2)} where .x > 5) rank (r: .x)",
+    good 54 "[] rank (r: .@)",
     -- nesting: depth 3000 must still work (slowly); the crash witness is the open finding
     mkCase "C10-corpus-200" "corpus/depth-3000" "KF-deep-nesting" "survive" (nest "(" ")" 3000 "1"),
     mkCase "C10-corpus-201" "corpus/depth-100000" "KF-deep-nesting" "survive" (nest "(" ")" 100000 "1") ] ++
@@ -101,8 +106,15 @@ def genCase (idx : Nat) : Gen Case := do
       let (s, k) ← genRaw
       pure (mkCase id k (classifyText s) "survive" s)
 
+/-- every `k`-th element starting at `r` (quick runs take one residue class of the deterministic grids, chosen by the
+seed, so that three consecutive seeds cover the whole grid; thorough runs take all of it) -/
+def slice (k r : Nat) (xs : List Case) : List Case :=
+  ((List.range xs.length).zip xs).filterMap (fun (i, c) => if i % k == r % k then some c else none)
+
 def gen (seed n : Nat) (thorough : Bool) : List Case := Id.run do
-  let mut out := (corpus thorough).reverse
+  let og := if thorough then opGrid else slice 3 seed opGrid
+  let lg := if thorough then libGrid seed else slice 3 seed (libGrid seed)
+  let mut out := (og.reverse ++ lg.reverse ++ (corpus thorough).reverse)
   for i in [0:n] do
     let (c, _) := (genCase i).run (seedOf seed (1000000 + i))
     out := c :: out
